@@ -447,6 +447,46 @@ Proof.
       * now apply tidy_clean_path.
 Qed.
 
+(** * strings.TrimRight(p, "/") on the generic paths the guard admits *)
+Lemma trim_right_id s : ends_with_slash s = false -> trim_right_slash s = s.
+Proof.
+  induction s as [|c r IH]; [reflexivity|]. intros E. cbn [trim_right_slash].
+  destruct r as [|d r'].
+  - cbn in E. cbn. now rewrite E.
+  - rewrite IH by exact E. reflexivity.
+Qed.
+Lemma trim_right_snoc q : trim_right_slash (q ++ [47]) = trim_right_slash q.
+Proof.
+  induction q as [|c r IH]; [reflexivity|]. cbn [app trim_right_slash]. now rewrite IH.
+Qed.
+Lemma split_on_snoc sep a : split_on sep (a ++ [sep]) = split_on sep a ++ [[]].
+Proof. apply (split_on_app sep a []). Qed.
+Lemma tidy_no_trailing_slash q : tidy q = true -> q <> [47] -> ends_with_slash q = false.
+Proof.
+  intros T N. destruct (tidy_inv _ T) as [_ [r [-> [-> | [Hr HP]]]]]; [congruence|].
+  destruct (ends_with_slash (47 :: r)) eqn:E; [|reflexivity]. exfalso.
+  assert (Er : r = removelast r ++ [47]).
+  { rewrite (app_removelast_last 0 Hr) at 1. unfold ends_with_slash in E.
+    change (last (47 :: r) 0) with (match r with [] => 47 | _ => last r 0 end) in E.
+    destruct r; [congruence|]. apply N.eqb_eq in E. now rewrite E. }
+  rewrite Er, split_on_snoc, forallb_app in HP. cbn in HP. now rewrite andb_false_r in HP.
+Qed.
+Lemma trim_right_plain p :
+  (let q := strip_slash p in is_nil q || (tidy q && negb (bytes_eqb q [47]))) = true ->
+  trim_right_slash p = strip_slash p.
+Proof.
+  cbn zeta. unfold strip_slash. destruct (ends_with_slash p) eqn:E; intros G.
+  - assert (Hp : p <> []) by (intro; subst; discriminate).
+    assert (Ep : p = removelast p ++ [47]).
+    { rewrite (app_removelast_last 0 Hp) at 1. unfold ends_with_slash in E. destruct p; [congruence|].
+      apply N.eqb_eq in E. now rewrite E. }
+    rewrite Ep at 1. rewrite trim_right_snoc. apply orb_true_iff in G as [G | G].
+    + destruct (removelast p); [reflexivity|discriminate].
+    + apply andb_true_iff in G as [G1 G2]. apply negb_true_iff, bytes_eqb_neq in G2.
+      apply trim_right_id. now apply tidy_no_trailing_slash.
+  - now apply trim_right_id.
+Qed.
+
 (** * log family *)
 Lemma fold_log_field {A} (pr : proto) (p : lset -> option A) (f : opt -> option A) :
   (forall s o, p (log_apply_opt pr s o) = keep f (p s) o) ->
@@ -513,33 +553,30 @@ Proof.
   - destruct (present (spec_ep e)), (present (gen_ep e)); reflexivity.
 Qed.
 
-Lemma log_path opts e : path_inputs_ok opts e = true -> path_shape_uniform FLog opts e = true ->
+Lemma log_path opts e : path_inputs_ok opts e = true ->
   c_path (log_config PHttp opts e) = exp_path FLog opts e.
 Proof.
-  intros G S. unfold path_inputs_ok in G. unfold path_shape_uniform in S.
-  apply andb_true_iff in G as [G _]. apply andb_true_iff in G as [G Ag]. apply andb_true_iff in G as [G As].
+  intros G. unfold path_inputs_ok in G.
+  apply andb_true_iff in G as [G Gp]. apply andb_true_iff in G as [G Ag]. apply andb_true_iff in G as [G As].
   unfold log_config. cbn [c_path]. rewrite (fold_log_field PHttp l_path opt_path log_opt_path).
   cbn [lset0 l_path]. rewrite <- last_some_fold. unfold exp_path.
   destruct (last_some opt_path opts) as [p|] eqn:L; cbn [or_else or_dflt resolve].
   - pose proof (last_some_tidy _ _ G L) as Tp. destruct (tidy_inv _ Tp) as [_ [r [-> _]]]. reflexivity.
-  - cbn [is_some orb] in S.
-    assert (W : forall x : bytes, is_nil x || starts_with [47] x = true -> x <> [] -> wire_path x = x).
+  - assert (W : forall x : bytes, is_nil x || starts_with [47] x = true -> x <> [] -> wire_path x = x).
     { intros [|c x] Hx Hn; [congruence|]. cbn [is_nil starts_with orb] in Hx. rewrite andb_true_r in Hx. apply N.eqb_eq in Hx. subst c. reflexivity. }
-    assert (Wg : forall u, is_nil (u_path u) || starts_with [47] (u_path u) = true ->
-                 negb (ends_with_slash (u_path u)) = true ->
-                 wire_path (u_path u ++ sig_path FLog) = strip_slash (u_path u) ++ sig_path FLog).
-    { intros u Hu Hs. unfold strip_slash. apply negb_true_iff in Hs. rewrite Hs.
-      destruct (u_path u) as [|c x] eqn:P; [reflexivity|]. apply W; [|discriminate].
-      cbn [is_nil starts_with orb] in Hu. rewrite andb_true_r in Hu. apply N.eqb_eq in Hu. subst c. reflexivity. }
-    rewrite !log_getenv_first. unfold rd_path_specific, rd_path_generic, rd_url, ep_path_abs, gen_path_no_trailing_slash, rd_url in *.
+    assert (Wg : forall u,
+                 (let q := strip_slash (u_path u) in is_nil q || (tidy q && negb (bytes_eqb q [47]))) = true ->
+                 wire_path (trim_right_slash (u_path u) ++ sig_path FLog) = strip_slash (u_path u) ++ sig_path FLog).
+    { intros u Hu. rewrite (trim_right_plain _ Hu). cbn zeta in Hu. apply orb_true_iff in Hu as [Hu | Hu].
+      - destruct (strip_slash (u_path u)); [reflexivity|discriminate].
+      - apply andb_true_iff in Hu as [Hu _]. destruct (tidy_inv _ Hu) as [_ [r [-> _]]]. reflexivity. }
+    rewrite !log_getenv_first. unfold rd_path_specific, rd_path_generic, rd_url, ep_path_abs, gen_path_plain, rd_url in *.
     cbn [present is_nil negb first_of].
     destruct (present (spec_ep e)); [destruct (parse_url (spec_ep e)) as [u|]|]; cbn [option_map first_of or_else or_dflt].
     + destruct (u_path u) as [|c x] eqn:P; cbn [is_nil]; [reflexivity|]. rewrite <- P in *. apply W; [exact As|]. rewrite P. discriminate.
-    + cbn [option_map is_some orb] in S.
-      destruct (present (gen_ep e)); [destruct (parse_url (gen_ep e)) as [u|]|]; cbn [option_map first_of or_else or_dflt]; try reflexivity.
+    + destruct (present (gen_ep e)); [destruct (parse_url (gen_ep e)) as [u|]|]; cbn [option_map first_of or_else or_dflt]; try reflexivity.
       now apply Wg.
-    + cbn [option_map is_some orb] in S.
-      destruct (present (gen_ep e)); [destruct (parse_url (gen_ep e)) as [u|]|]; cbn [option_map first_of or_else or_dflt]; try reflexivity.
+    + destruct (present (gen_ep e)); [destruct (parse_url (gen_ep e)) as [u|]|]; cbn [option_map first_of or_else or_dflt]; try reflexivity.
       now apply Wg.
 Qed.
 
@@ -577,7 +614,7 @@ Proof.
   - apply (TM (sig_path FTrace)); [discriminate|reflexivity].
   - apply (TM (sig_path FMetric)); [discriminate|reflexivity].
   - unfold exporter_config. destruct (log_settings pr opts e) as (Ht & Hg & Hh & Hhost).
-    repeat split; auto. intros ->. apply log_path.
+    repeat split; auto. intros -> G _. now apply log_path.
 Qed.
 
 (** ** unparsable values are ignored (or have their documented meaning) *)
@@ -642,14 +679,12 @@ Qed.
 (** ** the path rules *)
 Lemma generic_path_appended f opts e u : env_trimmed e = true -> path_inputs_ok opts e = true ->
   last_some opt_path opts = None -> rd_url (spec_ep e) = None -> rd_url (gen_ep e) = Some u ->
-  (f = FLog -> ends_with_slash (u_path u) = false) ->
   c_path (exporter_config f PHttp opts e) = strip_slash (u_path u) ++ sig_path f.
 Proof.
-  intros T G L S Gn Sl. destruct (precedence f PHttp opts e T) as (_ & H & _).
+  intros T G L S Gn. destruct (precedence f PHttp opts e T) as (_ & H & _).
   rewrite H; auto.
   - unfold exp_path, rd_path_specific, rd_path_generic. now rewrite L, S, Gn.
-  - unfold path_shape_uniform, spec_path_tidy, gen_path_no_trailing_slash, rd_path_specific. rewrite L, S, Gn. cbn.
-    destruct f; auto. now rewrite Sl.
+  - unfold path_shape_uniform, spec_path_tidy, rd_path_specific. rewrite L, S. cbn. now destruct f.
 Qed.
 
 Lemma specific_path_verbatim f opts e u : env_trimmed e = true -> path_inputs_ok opts e = true ->
@@ -676,11 +711,11 @@ Definition env_f4 : env :=
 Definition env_f5 : env :=
   {| gen_ep := []; spec_ep := []; gen_hdr := str "a=gen"; spec_hdr := str "garbage"; gen_comp := []; spec_comp := []; gen_tmo := []; spec_tmo := [] |}.
 
-Lemma log_generic_trailing_slash_refuted :
-  exists e, env_trimmed e = true /\ path_inputs_ok [] e = true /\
-            c_path (exporter_config FLog PHttp [] e) <> exp_path FLog [] e /\
-            c_path (exporter_config FLog PHttp [] e) = str "//v1/logs".
-Proof. exists env_f2. repeat split; vm_compute; congruence. Qed.
+(** F-C20-2 is repaired (19c40b9): the old witness now satisfies the uniform statement. *)
+Lemma log_generic_trailing_slash_fixed :
+  c_path (exporter_config FLog PHttp [] env_f2) = str "/v1/logs" /\
+  c_path (exporter_config FLog PHttp [] env_f2) = exp_path FLog [] env_f2.
+Proof. split; vm_compute; reflexivity. Qed.
 
 Lemma tm_specific_path_cleaned_refuted :
   exists e, env_trimmed e = true /\ path_inputs_ok [] e = true /\
